@@ -31,9 +31,9 @@ Section Statement.
   Let x' := mk_ctx ELECTRICIDAD false data'.
 
   Hypothesis Hn : nonneg_data data.
-  Hypothesis Hd : dom_data data.
   Hypothesis Hdn : Forall (fun v => 0 <= v) dv.
-  Hypothesis Hdz : Forall zg dv.
+  Let Hd : dom_data data := dom_of_nonneg data Hn.
+  Let Hdz : Forall zg dv := zg_all_of_nonneg dv Hdn.
   Hypothesis Hne : filter (has_carrier ELECTRICIDAD) data <> [].
 
   Theorem C14_grid_delivered_never_grows : a_del_grid x' <= a_del_grid x.
@@ -75,8 +75,8 @@ Proof. exact ratio_mono. Qed.
     without load matching — and the building's non-renewable primary energy, its emissions (step A and step B) and the energy
     delivered by the grids do not grow.  The other carriers do not see the component; the cogeneration factor is the same. *)
 Theorem C14_building : forall (lm : bool) (fs0 : list Factor) (c : Components) (i : Z) (dv : list Qc) (cm : str) (k area : Qc) (n : nat) (ep ep' : EP),
-  reg_set fs0 -> nonneg_data (c_data c) -> dom_data (c_data c) -> wf n (c_data c) -> (0 < n)%nat ->
-  length dv = n -> Forall (fun v => 0 <= v) dv -> Forall zg dv ->
+  reg_set fs0 -> nonneg_data (c_data c) -> wf n (c_data c) -> (0 < n)%nat ->
+  length dv = n -> Forall (fun v => 0 <= v) dv ->
   In ELECTRICIDAD (avail_carriers (c_data c)) -> filter (has_carrier ELECTRICIDAD) (c_data c) <> nil ->
   0 <= k <= 1 ->
   energy_performance c fs0 k area lm = Ok ep ->
@@ -84,7 +84,10 @@ Theorem C14_building : forall (lm : bool) (fs0 : list Factor) (c : Components) (
   nren (t_we_a ep') <= nren (t_we_a ep) /\ co2 (t_we_a ep') <= co2 (t_we_a ep)
   /\ nren (t_we_b ep') <= nren (t_we_b ep) /\ co2 (t_we_b ep') <= co2 (t_we_b ep)
   /\ t_del_grid ep' <= t_del_grid ep.
-Proof. intros. eapply pv_monotone_building; eassumption. Qed.
+Proof.
+  intros lm fs0 c i dv cm k area n ep ep' Hrs Hn Hwf Hpos Hlen Hdn. pose proof (dom_of_nonneg _ Hn). pose proof (zg_all_of_nonneg _ Hdn).
+  intros. eapply pv_monotone_building; eassumption.
+Qed.
 
 (** ** Load matching *)
 (** the production used in a step with load matching, g(u, p) = f(p/u) * min(u, p): for a fixed use it grows with the
@@ -102,7 +105,7 @@ Theorem C14_load_matching_without_cogeneration :
   forall (data : list Energy) (i : Z) (dv : list Qc) (cm : str),
   let x := mk_ctx ELECTRICIDAD true data in
   let x' := mk_ctx ELECTRICIDAD true (data ++ [EProd i EL_INSITU dv cm]) in
-  nonneg_data data -> dom_data data -> Forall (fun v => 0 <= v) dv -> Forall zg dv ->
+  nonneg_data data -> Forall (fun v => 0 <= v) dv ->
   filter (has_carrier ELECTRICIDAD) data <> nil ->
   existsb (is_prod_src EL_COGEN) (filter (has_carrier ELECTRICIDAD) data) = false ->
   forall (fs : list Factor) (g phi : RNC) (k : Qc),
@@ -115,7 +118,9 @@ Theorem C14_load_matching_without_cogeneration :
     /\ co2 (we_b (we_of_parts k p')) <= co2 (we_b (we_of_parts k p))
     /\ ren (we_a (we_of_parts k p)) <= ren (we_a (we_of_parts k p'))
     /\ a_del_grid x' <= a_del_grid x.
-Proof. intros. eapply pv_monotone_carrier_lm; eassumption. Qed.
+Proof.
+  intros data i dv cm x x' Hn Hdn. pose proof (dom_of_nonneg _ Hn). pose proof (zg_all_of_nonneg _ Hdn). intros. eapply pv_monotone_carrier_lm; eassumption.
+Qed.
 
 (** with load matching and cogeneration: the cogenerated electricity used in a step does not grow when the on-site
     production grows (so the exported cogenerated electricity does not shrink) *)
@@ -140,7 +145,7 @@ Theorem C14_load_matching_carrier :
   forall (data : list Energy) (i : Z) (dv : list Qc) (cm : str),
   let x := mk_ctx ELECTRICIDAD true data in
   let x' := mk_ctx ELECTRICIDAD true (data ++ [EProd i EL_INSITU dv cm]) in
-  nonneg_data data -> dom_data data -> Forall (fun v => 0 <= v) dv -> Forall zg dv ->
+  nonneg_data data -> Forall (fun v => 0 <= v) dv ->
   filter (has_carrier ELECTRICIDAD) data <> nil ->
   forall (fs : list Factor) (g phi : RNC) (k : Qc),
   regular fs ELECTRICIDAD (cx_srcs x) g (fsrc_reg phi) -> regular fs ELECTRICIDAD (cx_srcs x') g (fsrc_reg phi) ->
@@ -151,14 +156,16 @@ Theorem C14_load_matching_carrier :
     /\ nren (we_b (we_of_parts k p')) <= nren (we_b (we_of_parts k p))
     /\ co2 (we_b (we_of_parts k p')) <= co2 (we_b (we_of_parts k p))
     /\ a_del_grid x' <= a_del_grid x.
-Proof. intros. eapply pv_monotone_carrier_lm_all; eassumption. Qed.
+Proof.
+  intros data i dv cm x x' Hn Hdn. pose proof (dom_of_nonneg _ Hn). pose proof (zg_all_of_nonneg _ Hdn). intros. eapply pv_monotone_carrier_lm_all; eassumption.
+Qed.
 
 (** the three regimes of a time step *)
-Theorem C14_step_both_sources : forall c d, col_ok c -> el_col c -> 0 <= d -> zg (c_pv c) -> zg (c_chp c) ->
+Theorem C14_step_both_sources : forall c d, col_ok c -> el_col c -> 0 <= d ->
   s_del_grid (sr true (bump d c)) <= s_del_grid (sr true c) /\ s_exp (sr true c) <= s_exp (sr true (bump d c))
   /\ s_exp_src (sr true c) EL_COGEN <= s_exp_src (sr true (bump d c)) EL_COGEN
   /\ s_used_src (sr true c) EL_INSITU <= s_used_src (sr true (bump d c)) EL_INSITU.
-Proof. intros. apply step_prio; assumption. Qed.
+Proof. intros c d Hok Hel Hd. apply step_prio; try assumption; apply zg_of_nonneg; first [exact Hd|apply (ok_pv c Hok)|apply (ok_chp c Hok)]. Qed.
 
 (** non-vacuity and the RER counterexample *)
 Definition c14_factors : list Factor :=
@@ -174,10 +181,10 @@ Definition c14_base : list Energy :=
 Definition c14_more : list Energy := c14_base ++ [EProd 3 EL_INSITU [qz 50] []].
 
 Example C14_hypotheses_met :
-  nonneg_data c14_base /\ dom_data c14_base /\ filter (has_carrier ELECTRICIDAD) c14_base <> nil /\ reg_set c14_factors
+  nonneg_data c14_base /\ filter (has_carrier ELECTRICIDAD) c14_base <> nil /\ reg_set c14_factors
   /\ wf 1 c14_base /\ In ELECTRICIDAD (avail_carriers c14_base).
 Proof.
-  split; [apply nonneg_datab_ok; vm_compute; reflexivity|]. split; [apply dom_datab_ok; vm_compute; reflexivity|].
+  split; [apply nonneg_datab_ok; vm_compute; reflexivity|].
   split; [discriminate|]. split; [apply reg_setb_ok; vm_compute; reflexivity|]. split; [repeat constructor|].
   vm_compute. tauto.
 Qed.
